@@ -58,7 +58,7 @@ def encCall (c : Call) : Json :=
 def encFn (f : Fn) : Json :=
   Json.mkObj [("Name", f.name), ("ReturnType", f.ret), ("Parameters", mkArr (f.params.map fun p => mkStrs [p.typeType, p.typeValue])),
               ("FunctionCalls", mkArr (f.calls.map encCall)), ("Annotations", mkArr (f.annos.map encAnno)), ("Override", f.override),
-              ("IsConstructor", f.isConstructor), ("Position", encPos f.pos)]
+              ("IsConstructor", f.isConstructor), ("Position", encPos f.pos), ("Modifiers", mkStrs f.modifiers), ("IsReturnNull", f.isReturnNull)]
 def fnKey (f : Fn) : String := (encFn f).compress
 def encDS (d : DS) : Json :=
   -- functions come out of a Go map: canonical order = sorted by their JSON text
@@ -85,11 +85,11 @@ def decIEv (j : Json) : JavaIdent.IEv :=
   | "enterInterface" => .enterInterface (strD j "name")
   | "enterCtor" => .enterCtor (strD j "name") (decIP j)
   | "exitCtor" => .exitCtor
-  | "enterMethod" => .enterMethod (strD j "name") (strD j "ret") (optAnno j "firstAnno") (strs j "mods") (decIP j)
+  | "enterMethod" => .enterMethod (strD j "name") (strD j "ret") ((arr j "annos").map Dec.anno) (strs j "mods") (decIP j)
   | "exitMethod" => .exitMethod
-  | "interfaceMethod" => .interfaceMethod (strD j "name") (strD j "ret") (optAnno j "firstAnno") (decIP j)
+  | "interfaceMethod" => .interfaceMethod (strD j "name") (strD j "ret") ((arr j "annos").map Dec.anno) (strs j "mods") (decIP j)
   | "exitInterfaceMethod" => .exitInterfaceMethod
-  | "returnExpr" => .returnExpr (strD j "text")
+  | "returnExpr" => .returnExpr (boolD j "hasNull")
   | _ => .exitType
 
 /-- the process state: the full listener's and the identifier listener's package variables -/
